@@ -126,6 +126,75 @@ def gen(rng, i, quick):
     return g.script(), {"checks": checks, "ct": ct_cases, "bad": bad_cases, "ext": ext_props, "observers": observers}
 
 
+def server_script(rng, i):
+    """The stateless-server pattern of ExternalGroup: the observer persists every proposal it
+    sees (cached_proposal), is restored from a snapshot taken BEFORE them, re-inserts them
+    (insert_proposal) and then processes the commit that references them.  Proposals of a
+    member, of the external sender and of a new member (external add request)."""
+    names = ["A", "B", "C", "D"]
+    members = [{"name": n} for n in names + ["N", "M", "Z"]]
+    ops = [{"op": "create", "who": "A", "ext_senders": ["Z"]}]
+    for n in names[1:]:
+        ops.append({"op": "kp", "who": n, "id": "k" + n})
+    ops += [{"op": "commit", "who": "A", "id": "c0", "add": ["k" + n for n in names[1:]]}, {"op": "apply", "who": "A"}]
+    for n in names[1:]:
+        ops.append({"op": "join", "who": n, "welcome_any": "c0"})
+    for n in names:
+        ops.append({"op": "opts", "who": n, "encrypt_controls": False, "tree_ext": True, "path_required": rng.chance(1, 2)})
+    ops.append({"op": "group_info", "who": "A", "id": "gi0", "ext_commit": True, "tree_ext": True})
+    ops.append({"op": "obs_join", "who": "S", "gi": "gi0"})
+    ops.append({"op": "obs_join", "who": "X", "gi": "gi0", "signer_of": "Z"})
+    checks = []
+    epoch = 1
+    for r in range(2):
+        ops.append({"op": "obs_snapshot", "who": "S", "id": f"snap{r}"})
+        pids = []
+        kinds = rng.shuffle(["member_update", "member_remove", "external_add", "newmember_add"])[:2 + rng.below(3)]
+        if "member_remove" in kinds and "external_add" in kinds and r == 1:
+            kinds.remove("member_remove")
+        live = [n for n in names]
+        for k in kinds:
+            pid = f"q{r}{len(pids)}"
+            if k == "member_update":
+                ops.append({"op": "propose", "who": "B", "kind": "update", "id": pid})
+                src = "B"
+            elif k == "member_remove":
+                ops.append({"op": "propose", "who": "C", "kind": "remove", "name": "D", "id": pid})
+                src = "C"
+            elif k == "external_add":
+                ops.append({"op": "kp", "who": "M", "id": f"kM{r}"})
+                ops.append({"op": "obs_propose", "who": "X", "kind": "add", "kp": f"kM{r}", "id": pid})
+                src = None
+            else:
+                ops.append({"op": "group_info", "who": "A", "id": f"gin{r}", "ext_commit": True, "tree_ext": True})
+                ops.append({"op": "ext_add", "who": "N", "gi": f"gin{r}", "id": pid})
+                src = None
+            pids.append(pid)
+            for m in live:
+                if m != src:
+                    ops.append({"op": "deliver", "to": m, "msg": pid})
+            ops.append({"op": "obs_deliver", "who": "S", "to": "S", "msg": pid})
+            if k != "external_add":
+                ops.append({"op": "obs_deliver", "who": "X", "to": "X", "msg": pid})
+        # the server forgets what it held in memory and re-inserts what it persisted
+        ops.append({"op": "obs_restore", "who": "S", "snap": f"snap{r}"})
+        for pid in rng.shuffle(pids):
+            ops.append({"op": "obs_insert", "who": "S", "msg": pid})
+        ops.append({"op": "commit", "who": "A", "id": f"cs{r}"})
+        for m in live:
+            if m != "A":
+                ops.append({"op": "deliver", "to": m, "msg": f"cs{r}"})
+        ops.append({"op": "apply", "who": "A"})
+        ops.append({"op": "obs_deliver", "who": "S", "to": "S", "msg": f"cs{r}"})
+        ops.append({"op": "obs_deliver", "who": "X", "to": "X", "msg": f"cs{r}"})
+        epoch += 1
+        ops.append({"op": "observe", "who": "A", "observe": "all"})
+        checks.append((len(ops) - 1, epoch))
+        break
+    ops = [o for o in ops if o is not None]
+    return {"name": f"c16-srv{i}", "suite": 1, "members": members, "ops": ops}, {"checks": checks, "ct": [], "bad": [], "ext": [], "observers": {"S": {"jitter": None}}}
+
+
 def main(run, args):
     rng = Rng(run.seed)
     run.assumptions += [
@@ -148,7 +217,7 @@ def main(run, args):
         run.violation("harness build failed", herr, failing_input_found=False)
         return
     quick = run.tier == "quick"
-    items = [gen(rng, i, quick) for i in range(20 if quick else 150)]
+    items = [gen(rng, i, quick) for i in range(20 if quick else 150)] + [server_script(rng, i) for i in range(8 if quick else 60)]
     recs = run_scripts([x[0] for x in items], timeout=3000)
     failing = []
     stats = {"observer_comparisons": 0, "ciphertexts": 0, "refused_by_window": 0, "bad_handshake": 0, "external_proposals_committed": 0, "reloads": 0, "jitter_gt_epoch": 0}
